@@ -688,16 +688,27 @@ def pull_kinds_rule(repo, rep, r6, mp):
         r6.sites += 1
         r6.functions.add(f.fq)
         reg = None
+        from ..inline import Flat as _Flat
+        f_orig = f
+        f = _Flat(f, keep=('_open_response', '_openquery_response'),
+                  aliases=True)
+        from ..model import call_arguments as _ca
         for c in walk_no_nested(f.node):
             if isinstance(c, ast.Call) and dotted(c.func) in (
-                    'self._open_response', 'self._openquery_response') \
-                    and len(c.args) >= 3:
-                reg = c
+                    'self._open_response', 'self._openquery_response'):
+                tgt = mp.find_method(dotted(c.func)[5:])
+                if tgt is None:
+                    continue
+                given, _rest = _ca(f.node, c, [
+                    p_ for p_ in tgt.params if p_ != 'self'], f_orig)
+                if 'pull_type' in given:
+                    reg = c
+                    reg_pt = given['pull_type']
         if reg is None:
             rep.finding(r6, f.qualname, '_open_response', 'no-register',
                         MAIN, f.node.lineno, 'no call of _open_response')
             continue
-        pt = reg.args[2]
+        pt = reg_pt
         if isinstance(pt, ast.Name):
             # a local bound once to the literal
             defs_ = [a_.value for a_ in walk_no_nested(f.node)
